@@ -455,10 +455,11 @@ impl FailSafe {
         root_ca: &[u8],
         buf: &mut [u8],
     ) -> Result<(), Error> {
+        // Not a second root, and not after an AddNOC / UpdateNOC of this fail-safe context
         self.check_state(
             session_mode,
             NocFlags::empty(),
-            NocFlags::ADD_ROOT_CERT_RECVD,
+            NocFlags::ADD_ROOT_CERT_RECVD | NocFlags::ADD_NOC_RECVD | NocFlags::UPDATE_NOC_RECVD,
             NocFlags::ADD_ROOT_CERT_RECVD,
         )?;
 
